@@ -318,7 +318,7 @@ def pick_injection(draw, model, near=None):
         if rel:
             cands = rel
     kinds = sorted({c["kind"] for c in cands})
-    kinds += [k for k in kinds if k in ("frame-append-row", "link-data")] * 3     # rarely eligible kinds
+    kinds += [k for k in kinds if k in ("frame-append-row", "link-data", "link-resize")] * 3     # rarely eligible kinds
     k = draw(st.sampled_from(kinds))
     return draw(st.sampled_from([c for c in cands if c["kind"] == k]))
 
@@ -336,7 +336,7 @@ def cases(draw):
         inj = draw(pick_injection(cur, near))
         injs.append(inj)
         cur = R.apply_injection(cur, inj)
-    return {"file": model, "inj": injs, "cli": draw(st.booleans())}
+    return {"file": model, "inj": injs, "cli": draw(st.booleans()), "staged": draw(st.booleans())}
 
 
 # ------------------------------------------------------------------ building through the public API
@@ -514,6 +514,11 @@ def inject(f, model, inj):
                 tm = R.find_array(bm, am["dims"][inj["j"]]["link"])
                 tgt = blk.data_arrays[tm["name"]]
                 tgt[:] = make_data(dict(tm, data=inj["data"]))
+            elif kind == "link-resize":
+                tm = R.find_array(bm, am["dims"][inj["j"]]["link"])
+                tgt = blk.data_arrays[tm["name"]]
+                tgt.data_extent = (int(inj["n"]),)
+                tgt[:] = make_data(dict(tm, shape=[int(inj["n"])]))
             elif kind == "labels":
                 dim.labels = list(inj["labels"])
             elif kind == "interval":
@@ -661,6 +666,25 @@ def injection_targets(model, injs):
     return out
 
 
+def _validate_stage(f, cur, ctx, case, sub, injs, base):
+    expected = R.expected(cur)
+    idmap = {}
+    for opath, _, _, _ in R.objects(cur):
+        idmap[resolve(f, opath).id] = opath
+    try:
+        res = f.validate()
+    except Exception as exc:  # noqa
+        ctx.violation("C14/api/validate-raised/%s" % raise_class(cur), case,
+                      {"exception": type(exc).__name__, "text": str(exc)[:200], "stage": sub})
+        return
+    reported = {}
+    for obj, msgs in res["errors"].items():
+        oid = getattr(obj, "id", None)
+        reported.setdefault(idmap.get(oid, "unknown:%s" % type(obj).__name__), []).extend(list(msgs))
+    compare(ctx, case, expected, reported, "api", sorted({i["kind"] for i in injs}), injection_targets(base, injs))
+    ctx.count("staged-validations")
+
+
 def run_case(case, ctx):
     nix = _nix()
     base = case["file"]
@@ -673,7 +697,11 @@ def run_case(case, ctx):
     try:
         build(f, base)
         cur = base
-        for inj in injs:
+        for si, inj in enumerate(injs):
+            if case.get("staged"):
+                # validation must be a function of the CURRENT state, not of earlier validations in the
+                # same session: validate before every injection as well (same handles, same process)
+                _validate_stage(f, cur, ctx, case, "api@stage%d" % si, injs[:si], base)
             inject(f, cur, inj)
             cur = R.apply_injection(cur, inj)
         final = cur
@@ -748,6 +776,7 @@ def run_case(case, ctx):
         ekinds.add("frame")
     nontrivial = tagged and len(kinds_desc) >= 2 and (len(injs) >= 1 or len(ekinds) >= 3)
     classes = ["injections:%d" % len(injs), "cli" if case.get("cli") else "api-only",
+               "validated-before-each-injection" if case.get("staged") and injs else "validated-once",
                "blocks:%d" % len(base["blocks"])]
     classes += ["inj:" + i["kind"] for i in injs]
     classes += ["desc:" + k for k in sorted(kinds_desc)]
@@ -843,7 +872,8 @@ def run_shard(spec, ctx):
     for i, inj in enumerate(allinj):
         if i % spec["of"] != spec["slice"]:
             continue
-        run_case({"file": model, "inj": [inj], "cli": bool((i // spec["of"]) % 4 == 0)}, ctx)
+        run_case({"file": model, "inj": [inj], "cli": bool((i // spec["of"]) % 4 == 0),
+                  "staged": bool((i // spec["of"]) % 2 == 1)}, ctx)
         done += 1
     ctx.add("sweep_injections_run", done)
 
